@@ -185,7 +185,8 @@ def gen_types(tier, seed):
             yield {'ell': ell, 'kind': kind}
 
 
-TYPE_PTS = [(-37.95103342, 144.42486789), (-37.65282114, 143.92649553), (0.3, -0.15), (-0.5, 179.75), (45.5, -73.25), (12.0, 12.0)]
+TYPE_PTS = [(-37.95103342, 144.42486789), (-37.65282114, 143.92649553), (0.3, -0.15), (-0.5, 179.75), (45.5, -73.25), (12.0, 12.0),
+            (90.0, 30.0), (-90.0, -0.15), (0.0, 0.0), (-45.0, 180.0)]
 
 
 def ev_types(case, rec):
@@ -225,6 +226,16 @@ def ev_types(case, rec):
             if st != 'ok' or st2 != 'ok' or st3 != 'ok' or tuple(r) != tuple(r2) or tuple(r3) != tuple(r2):
                 rec.fail('angle-class arguments give a different inverse solution from their decimal-degree values',
                          site='geodesy:vincinv:intype', observed=[r, r3], expected=r2, case=dict(case, p1=list(p1), p2=list(p2)),
+                         coords={'kind': k})
+                continue
+            # the objects denote the lattice values in their own notation (100 gon IS the pole): the solution is the solution for
+            # those values (judged against the exact geodesic by the float lattice)
+            st0, r0 = rec.call(vincinv, p1[0], p1[1], p2[0], p2[1], E)
+            polar = abs(p1[0]) == 90.0 or abs(p2[0]) == 90.0
+            if k != 'np32' and st0 == 'ok' and (abs(r[0] - r0[0]) > 2e-3 or (not polar and r0[0] > 1.0 and (
+                    cfg.angdiff(r[1], r0[1]) > 1e-6 or cfg.angdiff(r[2], r0[2]) > 1e-6))):
+                rec.fail('angle objects that denote the values %r, %r in their own notation give a different inverse solution from those values' % (p1, p2),
+                         site='geodesy:vincinv:intype-value', observed=list(r), expected=list(r0), case=dict(case, p1=list(p1), p2=list(p2)),
                          coords={'kind': k})
             else:
                 rec.outcome('intype-ok')
